@@ -18,3 +18,4 @@ CONSTANTS
  UidKey <- JoinDash
  KeyForms = {"id"}
  Dev_KeyUnchecked = FALSE
+ Dev_IdUnchecked = FALSE
